@@ -14,8 +14,8 @@ import (
 
 	"perkeep.org/pkg/blob"
 	"perkeep.org/pkg/blobserver"
-	"perkeep.org/pkg/schema"
 	"perkeep.org/pkg/blobserver/memory"
+	"perkeep.org/pkg/schema"
 )
 
 func init() { props["C01"] = runC01 }
